@@ -151,6 +151,7 @@ PROPS["C10"] = {
 PROPS["C08"] = {
     "units": [
         plain("regress", "rtpconn", "TestVerif_C08_Regress_.*"),
+        plain("regress-group", "group", "TestVerif_C08_Regress_.*"),
         rapid("decision-procedure", "group", "TestVerif_C08_DecisionProcedure", 4000, 30000),
         rapid("makepassword-roundtrip", "galenectl", "TestVerif_C08_MakePasswordRoundTrip", 1200, 8000),
         rapid("login-machine", "rtpconn", "TestVerif_C08_LoginMachine", 250, 2000, quick_shards=4),
